@@ -139,7 +139,7 @@ def ctr_rekey_queries(tier, ops_filter=None):
         ops = [(1, 'set_key', [16] if c == 3 else [blk, 3 * blk])]
         if c != 3: ops += [(2, 'set_tweaked_key', [blk]), (3, 'set_tweak', [1, blk])]
         else: ops += [(3, 'set_tweak', [8])]
-        offs = sorted(set([1, blk, B - 1, B] + ([blk + 3, B - blk] if v else []))) if tier == 'quick' else sorted(set(list(range(0, blk + 2)) + [B // 2, B - blk - 1, B - blk, B - 1, B]))
+        offs = sorted(set([1, blk, B - 1, B])) if tier == 'quick' else sorted(set(list(range(0, blk + 2)) + [B // 2, B - blk - 1, B - blk, B - 1, B]))
         for op, oname, lens in ops:
             if ops_filter and oname not in ops_filter: continue
             for kl in lens:
